@@ -39,6 +39,8 @@ func vRegister(st *vState, tag string, kind int) (protocol.GUID, *verif.ModelSig
 // token signed by the device key of the voucher registered for the claimed GUID,
 // carrying this session's nonce; the released blob is the stored one.
 func VerifC07_RvRedirectSpec() {
+	verif.Expect("released")
+	verif.Expect("rejected")
 	verif.Bound("C07", "two registered GUIDs (symbolic, distinct) with P-256 device keys; session nonce present/absent; EAT: payload present/null, nonce claim absent / 16 symbolic bytes / 15 bytes / integer, UEID claim absent / symbolic bytes of length {0,16,17,18} / integer, protected alg in {ES256, ES384, unregistered}, signature 64 symbolic bytes")
 	st := newVState()
 	g0, dev0, blob0 := vRegister(st, "0", vcP256)
